@@ -21,20 +21,25 @@ def cr_setup(ctx):
     req = [f"req{i}" for i in range(n)]
     state = {k: ["present", "None", "missing"][ctx.choose(3, f"{k}-state")] for k in req}
     has_sub = ctx.choose(2, "subcommand-selected") == 1
+    # the selected subcommand may have no section at all (it was only named, and defaults were not asked for): its required keys are then checked on an
+    # empty section - i.e. reported missing - instead of crashing on None (AttributeError: 'NoneType' object has no attribute 'get'; fixed)
+    section = ["present", "absent", "None"][ctx.choose(3, "section-of-the-selected-subcommand")] if has_sub else "present"
     subparser = Rec("ArgumentParser", attrs={"tag": "sub"})
-    sub_cfg = Rec("Namespace", attrs={"tag": "sub-section"})
+    sub_cfg = Rec("Namespace", attrs={"tag": "sub-section"}, methods={"__bool__": lambda c, s_, a, k: True})
+    fresh = []
 
     def getitem(c, s_, a, k):
         if state.get(a[0]) == "missing":
             raise PyRaise(ExcVal("NSKeyError", origin="cfg[]"))
         return None if state.get(a[0]) == "None" else z3.Int(f"cfg[{a[0]}]")
 
-    cfg = Rec("Namespace", methods={"__getitem__": getitem, "get": lambda c, s_, a, k: sub_cfg if a[0] == "fit" else None})
+    cfg = Rec("Namespace", methods={"__getitem__": getitem, "get": lambda c, s_, a, k: (sub_cfg if section == "present" else None) if a[0] == "fit" else None})
     parser = Rec("ArgumentParser", attrs={"required_args": set(req)})
     calls = {"_ActionSubCommands.get_subcommand": lambda c, a, k: ("fit", subparser) if has_sub else (None, None),
-             "check_required": lambda c, a, k: c.event("recursive-check", a[0], a[1], a[2])}
+             "check_required": lambda c, a, k: c.event("recursive-check", a[0], a[1], a[2]),
+             "Namespace": lambda c, a, k: (fresh.append(Rec("Namespace()")), fresh[-1])[1]}
     prefix = z3.String("prefix")
-    return Setup(env={"cfg": cfg, "parser": parser, "prefix": prefix}, calls=calls, data=dict(req=req, state=state, has_sub=has_sub, subparser=subparser, sub_cfg=sub_cfg, prefix=prefix))
+    return Setup(env={"cfg": cfg, "parser": parser, "prefix": prefix}, calls=calls, data=dict(req=req, state=state, has_sub=has_sub, subparser=subparser, sub_cfg=sub_cfg, prefix=prefix, section=section, fresh=fresh))
 
 
 def cr_post(ctx, st, result):
@@ -42,8 +47,9 @@ def cr_post(ctx, st, result):
     ctx.oblige("post", "accepted=>every-required-key-present-and-not-None", all(v == "present" for v in d["state"].values()), note=str(d["state"]))
     rec = [e for e in ctx.events if e[0] == "recursive-check"]
     if d["has_sub"]:
-        ok = len(rec) == 1 and rec[0][1] is d["sub_cfg"] and rec[0][2] is d["subparser"]
-        ctx.oblige("post", "selected-subcommand's-required-keys-are-checked-on-its-own-section-and-parser", ok)
+        on = d["sub_cfg"] if d["section"] == "present" else (d["fresh"][0] if len(d["fresh"]) == 1 else None)
+        ok = len(rec) == 1 and on is not None and rec[0][1] is on and rec[0][2] is d["subparser"]
+        ctx.oblige("post", f"selected-subcommand's-required-keys-are-checked-on-its-own-section(an empty one when it has none)-and-parser[section:{d['section']}]", ok)
         ctx.oblige("post", "with-the-prefixed-key(prefix + subcommand + '.')", len(rec) == 1 and is_z3(rec[0][3]) and z3.simplify(rec[0][3] == z3.Concat(d["prefix"], z3.StringVal("fit"), z3.StringVal("."))))
     else:
         ctx.oblige("post", "no-subcommand=>no-recursion", not rec)
